@@ -176,7 +176,7 @@ FragAlpha == {f \in [first : 0..(NB - 1), nb : 1..NB, more : BOOLEAN] : f.first 
              \cup [first : {0, 2}, nb : {0}, more : BOOLEAN]
 SeqsOver(A, n) == UNION {[1..m -> A] : m \in 1..n}
 FSeqs == [k : {"fseq"}, pr : {"udp"}, fs : SeqsOver(FragAlpha, SeqLen)]
-         \cup [k : {"fseq"}, pr : {"icmp", "tcp"}, fs : SeqsOver(FragAlpha, Min2(SeqLen, 2))]
+         \cup [k : {"fseq"}, pr : {"icmp", "tcp"}, fs : SeqsOver(FragAlpha, SeqLen)]
 (* Segment sequences on one 4-tuple aimed at the listener.  Letters ending in
    x use the exact sequence/ack numbers learnt from the SYN-ACK (if any). *)
 TAlpha == {"S", "So", "SA", "A", "Ax", "PA", "PAx", "R", "Rx", "Fx", "FAx", "BIG", "UNR", "Sx2"}
